@@ -323,6 +323,28 @@ def main():
             failures.append("the lookup object is subscribed %d times to K" % left)
         if not state["n"]:
             failures.append("the scenario did not reach Specification.unsubscribe")
+    elif which == "adapter_hooks_mutation":
+        # ``Interface.__call__`` runs the adapter hooks; a hook may change the list of hooks
+        from zope.interface import interface as zi_interface
+        hooks = zi_interface.adapter_hooks
+        saved = list(hooks)
+
+        class Hook:
+            def __init__(self):
+                self.pad = list(range(40))
+
+            def __call__(self, iface, ob):
+                state["n"] += 1
+                del hooks[:]          # unregisters every hook, itself included
+                junk()
+                return None
+
+        try:
+            for _ in range(n):
+                hooks[:] = [Hook(), Hook(), Hook()]
+                expect(I(object(), "alt"), "alt", which)
+        finally:
+            hooks[:] = saved
     else:
         failures.append("unknown scenario " + which)
     _boot.write_result({"summary": "survived, %d callbacks fired" % state["n"], "failures": failures})
